@@ -109,7 +109,7 @@ SiteAlpha(kind) ==
     CASE kind = "int"  -> { K("nil"), K("err"), K("valerr"), K("panics"), K("thunkerr"), K("wrong") }
       [] kind = "str"  -> { K("nil"), K("err") }
       [] kind = "obj"  -> { K("nil"), K("err"), K("valerr"), K("thunk") }
-      [] kind = "list" -> { K("nil"), K("err"), K("nilitem"), K("wrong") }
+      [] kind = "list" -> { K("nil"), K("err"), K("nilitem"), K("wrong"), K("titems") }
       [] kind = "enum" -> { K("nil"), K("badenum") }
       [] kind = "abs"  -> { K("nil"), [k |-> "val", rt |-> "B"], [k |-> "val", rt |-> "O"], [k |-> "val", rt |-> "-"] }
       [] kind = "abslist" -> { K("nil"), [k |-> "val", rts |-> <<"B", "A">>], [k |-> "val", rts |-> <<"A", "O">>] }
@@ -121,7 +121,7 @@ SiteAlpha(kind) ==
       [] kind = "obj"  -> { K("nil"), K("typednil"), K("err"), K("valerr"), K("panic"), K("panics"), K("thunk"),
                             K("thunkerr"), K("badthunk") }
       [] kind = "list" -> { K("nil"), K("err"), K("valerr"), K("panics"), K("thunk"), K("thunkerr"), K("wrong"),
-                            K("nilitem"), [k |-> "val", len |-> 0] }
+                            K("nilitem"), K("titems"), [k |-> "val", len |-> 0] }
       [] kind = "enum" -> { K("nil"), K("err"), K("badenum"), K("wrong"), K("thunk") }
       [] kind = "abs"  -> { K("nil"), K("err"), K("thunk"), K("wrong"), K("typednil"),
                             [k |-> "val", rt |-> "B"], [k |-> "val", rt |-> "O"], [k |-> "val", rt |-> "-"],
